@@ -351,6 +351,37 @@ class Routes:
         G("FractionScalar routes", case, fraction_routes)
 
 
+def _explicit_database(ctx, R):
+    """ConvertToCurrent / ConvertScalarToCurrent take the database to convert with: the answer is that database's
+    conversion, also when it is not the one the scalar was created under (here: another table for the same symbols)."""
+    from barril.units import Scalar, UnitDatabase
+    from barril.units.unit_system_manager import UnitSystemManager
+
+    db2 = UnitDatabase()
+    db2.AddUnitBase("length", "metre", "m")
+    db2.AddUnit("length", "survey centimetre", "cm", "%f*50.0", "%f/50.0")
+    db2.AddUnit("length", "survey kilometre", "km", "%f/999.0", "%f*999.0")
+    db2.AddCategory("length", "length")
+    db2.AddCategory("depth", "length")
+    m = UnitSystemManager()
+    m.AddUnitSystem("x", "X", {"length": "cm", "depth": "km"})
+    for c, u, v, x in (("length", "m", "cm", 2.0), ("length", "km", "cm", 0.5), ("depth", "m", "km", 1998.0), ("depth", "cm", "km", -3.0)):
+        case = {"explicit database": True, "category": c, "u": u, "v": v, "x": x}
+        want = db2.Convert("length", u, v, x)
+
+        def go():
+            r = m.ConvertToCurrent(c, u, x, db2)
+            R.cmp("UnitSystemManager.ConvertToCurrent(unit_database=)", r[0], [want], case, None, None, [x])
+            s = Scalar(c, x, u)  # created under the shipped table
+            sc = m.ConvertScalarToCurrent(s, db2)
+            R.cmp("UnitSystemManager.ConvertScalarToCurrent(unit_database=)", sc.value, [want], case, None, None, [x])
+            ctx.ev()
+            if (sc.GetUnit(), sc.GetCategory()) != (v, c):
+                R.bad("UnitSystemManager.ConvertScalarToCurrent(unit_database=)", "category/unit", case, {"got": [sc.GetUnit(), sc.GetCategory()]})
+
+        R.guard("explicit database routes", case, go)
+
+
 def _derived_own_unit(ctx, R, db, aff, rng, n):
     """asking a derived object for its value in its own unit returns the stored value unchanged."""
     import numpy as np
@@ -447,6 +478,8 @@ def run(ctx):
                 R.pair(c, qt, u, v, xs, lengths)
                 if idx < 2 and ctx.shard == 0:
                     ctx.sample({"db": kind, "category": c, "u": u, "v": v, "xs": xs})
+            if kind == "posc" and ctx.shard == 0:
+                _explicit_database(ctx, R)
             if kind == "posc":
                 _derived_own_unit(ctx, R, db, aff, ctx.rng("derived"), 300 if ctx.tier == "quick" else 3000)
             ctx.notes.setdefault("routes_observed", {}).update({k: 1 for k in R.seen_routes})
